@@ -185,7 +185,11 @@ def check(case, ctx):
     def cmp(name, V1, V2):
         if dt == "float32":
             V1, V2 = np.asarray(V1, np.float32), np.asarray(V2, np.float32)
-        a2 = np.asarray(symmetry.Umis(V1, V2, k), float)[:, 1]
+        a2 = np.asarray(symmetry.Umis(V1, V2, k), float)
+        if a2.shape != (N, 2):
+            ctx.fail("umis-shape/" + name, "system %d: Umis returned shape %r, expected (%d, 2)" % (k, a2.shape, N))
+            return
+        a2 = a2[:, 1]
         ctx.near("invariance/" + name, O.maxabs(np.sort(np.cos(np.radians(a2))) - srt) * (1e-12 / tol_def), 1e-12, "umis-invariance/" + name,
                  "system %d: angle multiset changes under %s" % (k, name))
     cmp("U2.rot", U1, U2 @ R[j])
@@ -195,5 +199,9 @@ def check(case, ctx):
     # the cached operator tables are still the freshly computed ones (nobody wrote into them)
     if not np.array_equal(np.asarray(symmetry.ROTATIONS[k]), np.asarray(symmetry.rotations(k))):
         ctx.fail("cache/%d" % k, "ROTATIONS[%d] no longer equals rotations(%d) after the calls of this case" % (k, k))
-    same = np.asarray(symmetry.Umis(U1, U1, k), float)[:, 1]
+    same = np.asarray(symmetry.Umis(U1, U1, k), float)
+    if same.shape != (N, 2):
+        ctx.fail("umis-shape/self", "system %d: Umis(U,U) returned shape %r, expected (%d, 2)" % (k, same.shape, N))
+        return
+    same = same[:, 1]
     ctx.near("Umis(U,U) contains 0", (1 - math.cos(math.radians(float(np.min(same))))) * (1e-12 / tol_def), 1e-12, "umis-self", "Umis(U,U) minimum is %r deg" % float(np.min(same)))
